@@ -276,6 +276,10 @@ func CheckConsume(c ConsumeCase) *kit.Violation {
 				return v
 			}
 		}
+		// the follow-up calls read from non-closable readers: the stream of this call must not be closed again
+		if rd.closed != wantClosed {
+			return kit.Failf("%s consumer into %s: after two later Consume calls (non-closable readers) the stream of the first call reads closed %d times, want %d", c.Codec, c.Dest, rd.closed, wantClosed)
+		}
 		if now := read(); !bytes.Equal(now, snapshot) {
 			return kit.Failf("ALIASED: %s consumer into %s stored %q; after two later Consume calls with other content the destination reads %q", c.Codec, c.Dest, clipb(snapshot), clipb(now))
 		}
